@@ -7,7 +7,7 @@
     [min burst window] bytes); afterwards the peer closes ([mode] 0), stalls (1) or fails (2).
     [grow] is the reallocation policy of [BytesMut::reserve], only assumed to keep its promise
     ([grow_ok]: the new capacity is at least [len + additional]). *)
-From KV Require Import Bytes RustInt Http1Read Http1ReadProofs Http1ReadParseProofs.
+From KV Require Import Bytes RustInt Http1Read Http1ReadProofs Http1ReadParseProofs Http1ReadLocalProofs.
 Open Scope N_scope.
 
 (** parse (print g) = g.  [g] ranges over the request grammar [greq_ok]: a method token of at most
@@ -49,6 +49,24 @@ Theorem schedule_independent : forall grow1 grow2 mode1 mode2 https dh (max_len 
     serve grow2 mode2 https dh max_len limit (print_head g ++ rest) sched2 = Ok sv2 /\
     observed sv1 = observed sv2 /\ observed sv1 <> None.
 Proof. exact schedule_independent_lemma. Qed.
+
+(** Beyond the grammar: for EVERY byte stream (malformed heads, bare-LF line ends, anything) what
+    a handler sees -- request fields and body outcome, or the error class -- is [serve_spec] of the
+    delivered bytes [firstn (sum_sched sched) stream]: a function that has no schedule and no
+    capacity in it (head end = first LF CR* LF, the parser run on exactly the head, the body =
+    what follows).  The parser never looks past the blank line. *)
+Theorem segmentation_blind : forall grow mode https dh (max_len : nat) limit stream (sched : list nat),
+  grow_ok grow -> sched_pos sched ->
+  result_view (serve grow mode https dh max_len limit stream sched) =
+  serve_spec mode https dh max_len limit (firstn (sum_sched sched) stream).
+Proof. exact serve_blind_lemma. Qed.
+
+Theorem schedule_independent_any_stream : forall grow1 grow2 mode https dh (max_len : nat) limit stream (sched1 sched2 : list nat),
+  grow_ok grow1 -> grow_ok grow2 -> sched_pos sched1 -> sched_pos sched2 ->
+  firstn (sum_sched sched1) stream = firstn (sum_sched sched2) stream ->
+  result_view (serve grow1 mode https dh max_len limit stream sched1) =
+  result_view (serve grow2 mode https dh max_len limit stream sched2).
+Proof. exact schedule_independent_any_lemma. Qed.
 
 (** No blank line within the first [max_len] bytes (16 384 in kvarn): an error — for every read
     schedule (zero-length reads included), every growth function, every end mode. *)
@@ -123,3 +141,13 @@ Example parse_print_ex :
      with Ok sv => Some sv | _ => None end) =
   Some (expect false None 65536 ex_req (B "helloGET /next")).
 Proof. split; [vm_compute; reflexivity|]. split; [repeat constructor|]. split; vm_compute; reflexivity. Qed.
+
+(** a malformed stream (bare LF line ends, a header line without colon) cut in two different ways *)
+Example segmentation_blind_ex :
+  let stream := B "GET /x HTTP/1.1" ++ [10] ++ B "Host: h" ++ [10] ++ B "junk" ++ [10; 10] ++ B "tail" in
+  sched_pos [3; 9; 100]%nat /\ sched_pos [1; 1; 1; 40]%nat /\
+  result_view (serve vec_grow 0 false None 64%nat 10 stream [3; 9; 100]%nat) =
+  result_view (serve vec_grow 0 false None 64%nat 10 stream [1; 1; 1; 40]%nat) /\
+  result_view (serve vec_grow 0 false None 64%nat 10 stream [3; 9; 100]%nat) =
+  serve_spec 0 false None 64%nat 10 stream.
+Proof. split; [repeat constructor|]. split; [repeat constructor|]. vm_compute. split; reflexivity. Qed.
